@@ -25,7 +25,7 @@ for base in ['m','g','s','A','mol','N','J','W','Pa','Hz','C','L','cal','eV']:
 atom('°C degC',1,D(Th=1)); atom('°K degK',1,D(Th=1)); atom('°F degF F °R degR R',F(5,9),D(Th=1))
 ATOMS['C'].append((F(1),0,D(Th=1)))  # C as Celsius degree
 # time
-atom('min mins',60,D(T=1)); atom('hr hrs',3600,D(T=1))
+atom('min mins',60,D(T=1)); atom('hr hrs',3600,D(T=1)); atom('day days',86400,D(T=1)); atom('week weeks wk',604800,D(T=1))
 # length imperial
 atom('ft',F(3048,10000),D(L=1)); atom('in',F(254,10000),D(L=1)); atom('yd',F(9144,10000),D(L=1)); atom('mi',F(1609344,1000),D(L=1))
 atom('nmi NM',1852,D(L=1)); atom('mil mils thou thous milin',F(254,10**7),D(L=1)); atom('μin uin',F(254,10**10),D(L=1))
